@@ -1,8 +1,10 @@
 CONSTANT Depth = 1
+CONSTANT Family = "sections"
 INIT Init
 NEXT Next
 INVARIANT FullDocumentLoads
 INVARIANT LoadsImpliesCanonical
 INVARIANT ClientRequired
+INVARIANT NestedWrongKindIsError
 CONSTRAINT Emit
 CHECK_DEADLOCK FALSE
